@@ -153,6 +153,11 @@ def run(prop, tier):
         cases.append({"prop": prop, "mac_outcome": mo["outcome"], "inl_outcome": io["outcome"],
                       "mac_regex": mo.get("regex", ""), "inl_regex": io.get("regex", ""), "mac_exc": mo.get("exc", ""),
                       "behaviour": "", "must_fail": bool(d.get("must_fail", False)), "names": d.get("names", [])})
+    # binding of the pass-algorithm model (JasmMacroPass): does the real expander end the way the model does?
+    agree = sum(1 for d, (mo, io, mr, ir) in zip(docs, comp) if d.get("model_outcome") == ("ok" if mo["outcome"] == "ok" else "error"))
+    drift = [{"rule": mr["yaml"], "model": d.get("model_outcome"), "code": mo["outcome"], "exc": mo.get("exc")}
+             for d, (mo, io, mr, ir) in zip(docs, comp) if d.get("model_outcome") != ("ok" if mo["outcome"] == "ok" else "error")]
+    report.cov["macro_pass_model"] = {"documents": len(docs), "same_outcome": agree, "drift_samples": drift[:3]}
     verdicts = validate(cases, report, f"{prop}-1")
     need = [n for n, v in enumerate(verdicts) if v == "need:behaviour"]
     if need:
